@@ -6,13 +6,13 @@ Import ListNotations.
 Open Scope N_scope.
 
 Definition wevent_clean (cred : bytes) (e : wevent) : Prop :=
-  match e with WEv _ ev => event_clean cred ev | WOpen _ _ => True end.
+  match e with WEv _ ev => event_clean cred ev | _ => True end.
 
 (* the event hits the defect of the code as found, in the state it is processed in *)
 Definition wleaky (ws : wstate) (e : wevent) : bool :=
   match e with
   | WEv c ev => match lookup c ws.(ws_conns) with Some st => leaky st ev | None => false end
-  | WOpen _ _ => false
+  | _ => false
   end.
 
 Fixpoint wsafe (cfg : config) (ws : wstate) (es : list wevent) : bool :=
@@ -52,7 +52,7 @@ Proof. intros c st H. discriminate. Qed.
 
 Lemma wstep_inv cfg ws e ws' wr : winv cfg ws -> wstep cfg ws e = (ws', wr) -> winv cfg ws'.
 Proof.
-  intros Hw H. destruct e as [c pm|c ev]; cbn [wstep] in H.
+  intros Hw H. destruct e as [c pm|c ev|opt|c]; cbn [wstep] in H.
   - destruct (lookup c (ws_conns ws)) eqn:El.
     + inversion H; subst. assumption.
     + inversion H; subst. intros x st Hx. cbn in Hx. rewrite (lookup_app_none _ _ _ _ El) in Hx. cbn.
@@ -61,7 +61,7 @@ Proof.
         intros _ Ht. rewrite H2 in Ht. discriminate.
       * apply Hw. assumption.
   - destruct (lookup c (ws_conns ws)) as [st|] eqn:El.
-    + destruct (step cfg (mem c (ws_set ws)) st ev) as [[st' w1] conn] eqn:Es.
+    + destruct (step (with_auth cfg (ws_auth ws)) (mem c (ws_set ws)) st ev) as [[st' w1] conn] eqn:Es.
       inversion H; subst. clear H. destruct (Hw c st El) as [Hi Hm].
       destruct (step_state _ _ _ _ _ _ _ Hi Es) as (Hi' & _ & Ht1 & Ht2).
       intros x sx Hx. cbn in Hx. rewrite lookup_update in Hx by (rewrite El; discriminate). cbn.
@@ -74,35 +74,44 @@ Proof.
         intros Hf Ht. specialize (Hmx Hf Ht). destruct (conn && c_fixed cfg); [|assumption].
         unfold mem in *. cbn. rewrite Hmx. apply orb_true_r.
     + inversion H; subst. assumption.
+  - (* configure: neither the set nor any connection changes *)
+    inversion H; subst. exact Hw.
+  - destruct (lookup c (ws_conns ws)) as [st|] eqn:El; inversion H; subst; [|assumption].
+    intros x sx Hx. cbn in Hx. rewrite lookup_update in Hx by (rewrite El; discriminate). cbn.
+    destruct (c =? x) eqn:E.
+    + apply N.eqb_eq in E. subst x. inversion Hx; subst sx. destruct (Hw c st El) as [Hi Hm].
+      split; [apply inv_dead; assumption | exact Hm].
+    + apply Hw. assumption.
 Qed.
 
 (* ------------------------------------------------------------------ one world step is sound *)
 Lemma wstep_sound cfg cred ws e ws' wr c w :
-  cfg.(c_auth) = Some cred -> winv cfg ws -> wevent_clean cred e ->
+  winv cfg ws -> wevent_clean cred e ->
   (cfg.(c_fixed) = true \/ wleaky ws e = false) ->
   wstep cfg ws e = (ws', wr) -> In (c, w) wr -> carries cred w.(w_fields) -> good w.
 Proof.
-  intros Ha Hw Hcl Hsafe H Hin Hcar. destruct e as [c0 pm|c0 ev]; cbn [wstep] in H.
+  intros Hw Hcl Hsafe H Hin Hcar. destruct e as [c0 pm|c0 ev|opt|c0]; cbn [wstep] in H;
+    [| |inversion H; subst; destruct Hin|destruct (lookup c0 (ws_conns ws)); inversion H; subst; destruct Hin].
   - destruct (lookup c0 (ws_conns ws)); inversion H; subst; destruct Hin.
   - destruct (lookup c0 (ws_conns ws)) as [st|] eqn:El; [|inversion H; subst; destruct Hin].
-    destruct (step cfg (mem c0 (ws_set ws)) st ev) as [[st' w1] conn] eqn:Es.
+    destruct (step (with_auth cfg (ws_auth ws)) (mem c0 (ws_set ws)) st ev) as [[st' w1] conn] eqn:Es.
     inversion H; subst. clear H. apply in_map_iff in Hin. destruct Hin as (w' & Hw' & Hin). inversion Hw'; subst.
     destruct (Hw c st El) as [Hi Hm].
     eapply step_sound; try eassumption.
     destruct Hsafe as [Hf|Hl].
     + destruct (cs_tunnel st) eqn:Et.
-      * left. rewrite Hf, (Hm Hf eq_refl). reflexivity.
+      * left. cbn. rewrite Hf, (Hm Hf eq_refl). reflexivity.
       * right. left. reflexivity.
     + right. right. cbn in Hl. rewrite El in Hl. assumption.
 Qed.
 
 (* ------------------------------------------------------------------ histories *)
-Lemma wrun_sound cfg cred : cfg.(c_auth) = Some cred ->
+Lemma wrun_sound cfg cred :
   forall es ws, winv cfg ws -> Forall (wevent_clean cred) es ->
   (cfg.(c_fixed) = true \/ wsafe cfg ws es = true) ->
   forall c w, In (c, w) (snd (wrun cfg ws es)) -> carries cred w.(w_fields) -> good w.
 Proof.
-  intros Ha. induction es as [|e r IH]; intros ws Hw Hcl Hsafe c w Hin Hcar; cbn [wrun] in Hin.
+  induction es as [|e r IH]; intros ws Hw Hcl Hsafe c w Hin Hcar; cbn [wrun] in Hin.
   - destruct Hin.
   - destruct (wstep cfg ws e) as [ws1 w1] eqn:E1. destruct (wrun cfg ws1 r) as [ws2 w2] eqn:E2.
     cbn [snd] in Hin. inversion Hcl; subst. apply in_app_or in Hin. destruct Hin as [Hin|Hin].
@@ -117,22 +126,24 @@ Proof.
 Qed.
 
 (* Main theorem, repaired code: for every history of events on any number of client connections in any modes,
-   a head that carries the configured credential (which no client sent) is written only to the upstream proxy,
-   outside any tunnel, for an upstream-mode client, or to the reverse target of a reverse-mode client. *)
+   with the option upstream_auth set, unset or changed at any point of the history (WConfigure), and for EVERY value
+   cred that no client sent: a head that carries cred is written only to the upstream proxy, outside any tunnel, for
+   an upstream-mode client, or to the reverse target of a reverse-mode client.  (A header value that no client sent
+   can only have been put there by the addon, so this covers every credential configured at any time.) *)
 Theorem sound_fixed : forall cfg cred es,
-  cfg.(c_fixed) = true -> cfg.(c_auth) = Some cred -> Forall (wevent_clean cred) es ->
+  cfg.(c_fixed) = true -> Forall (wevent_clean cred) es ->
   forall c w, In (c, w) (snd (wrun cfg ws_init es)) -> carries cred w.(w_fields) -> good w.
 Proof.
-  intros cfg cred es Hf Ha Hcl. apply (wrun_sound cfg cred Ha es ws_init (winv_init cfg) Hcl). left. assumption.
+  intros cfg cred es Hf Hcl. apply (wrun_sound cfg cred es ws_init (winv_init cfg) Hcl). left. assumption.
 Qed.
 
 (* Code as found: the same, for histories that never send a plain-HTTP request through an accepted CONNECT tunnel
    of an upstream-mode client. *)
 Theorem sound_partial : forall cfg cred es,
-  cfg.(c_auth) = Some cred -> Forall (wevent_clean cred) es -> wsafe cfg ws_init es = true ->
+  Forall (wevent_clean cred) es -> wsafe cfg ws_init es = true ->
   forall c w, In (c, w) (snd (wrun cfg ws_init es)) -> carries cred w.(w_fields) -> good w.
 Proof.
-  intros cfg cred es Ha Hcl Hs. apply (wrun_sound cfg cred Ha es ws_init (winv_init cfg) Hcl). right. assumption.
+  intros cfg cred es Hcl Hs. apply (wrun_sound cfg cred es ws_init (winv_init cfg) Hcl). right. assumption.
 Qed.
 
 (* good implies: never for regular, transparent or SOCKS5 clients *)
@@ -156,12 +167,20 @@ Definition cred0 : bytes := basic_prefix ++ b64encode [x75;x3a;x70].          (*
 Definition proxy0 : addr := ([x75;x70], 3128).                                   (* up:3128 *)
 Definition origin0 : addr := ([x65;x2e;x63;x6f;x6d], 80).                        (* e.com:80 *)
 Definition cfg0 (fixed : bool) : config :=
-  {| c_auth := configure (Some [117; 58; 112]); c_send_host := true; c_eager := true; c_fixed := fixed |}.
-(* upstream mode: a plain request, CONNECT e.com:80, then a plain-HTTP request through the tunnel *)
+  {| c_auth := None; c_send_host := true; c_eager := true; c_fixed := fixed |}.
+Definition opt0 : option (list N) := Some [117; 58; 112].                       (* upstream_auth = u:p *)
+(* upstream mode, upstream_auth set first: a plain request, CONNECT e.com:80, then a plain-HTTP request through the tunnel *)
 Definition history0 : list wevent :=
-  [WOpen 0 (PUpstream proxy0);
+  [WConfigure opt0;
+   WOpen 0 (PUpstream proxy0);
    WEv 0 (EReq (Some (false, origin0)) (Some origin0) [(HOST, fst origin0)] true);
    WEv 0 (EConnect origin0 false true);
+   WEv 0 (EReq None (Some origin0) [(HOST, fst origin0)] true)].
+(* the CONNECT is accepted while upstream_auth is unset, the option is set afterwards, then a request in the tunnel *)
+Definition history1 : list wevent :=
+  [WOpen 0 (PUpstream proxy0);
+   WEv 0 (EConnect origin0 false true);
+   WConfigure opt0;
    WEv 0 (EReq None (Some origin0) [(HOST, fst origin0)] true)].
 
 Definition carriesb (cred : bytes) (fs : list field) : bool := existsb (fun f => bytes_eqb (snd f) cred) fs.
@@ -181,29 +200,49 @@ Proof.
   repeat constructor; cbn; intros k v [H|[]]; inversion H; subst; intros E; vm_compute in E; discriminate.
 Qed.
 
-(* as found: the third head of history0 carries the credential and is delivered through the tunnel to the origin *)
+Lemma history1_clean : Forall (wevent_clean cred0) history1.
+Proof.
+  repeat constructor; cbn; intros k v [H|[]]; inversion H; subst; intros E; vm_compute in E; discriminate.
+Qed.
+
+(* as found: the third head of history0 carries the configured credential and is delivered through the tunnel to the origin *)
 Theorem refuted : exists cfg cred es c w,
-  cfg.(c_fixed) = false /\ cfg.(c_auth) = Some cred /\ Forall (wevent_clean cred) es
+  cfg.(c_fixed) = false /\ (fst (wrun cfg ws_init es)).(ws_auth) = Some cred /\ Forall (wevent_clean cred) es
   /\ In (c, w) (snd (wrun cfg ws_init es)) /\ carries cred w.(w_fields)
   /\ w.(w_via) = true /\ w.(w_tunnelled) = true /\ w.(w_kind) = WRequest.
 Proof.
   exists (cfg0 false), cred0, history0, 0.
   destruct (nth_error (snd (wrun (cfg0 false) ws_init history0)) 2) as [[c w]|] eqn:E; [|vm_compute in E; discriminate].
   exists w. assert (Hin := nth_error_In _ _ E). vm_compute in E. inversion E; subst c w.
-  split; [reflexivity|]. split; [reflexivity|]. split; [exact history0_clean|]. split; [exact Hin|].
+  split; [reflexivity|]. split; [vm_compute; reflexivity|]. split; [exact history0_clean|]. split; [exact Hin|].
   split; [apply carriesb_true; vm_compute; reflexivity|]. repeat split.
 Qed.
 
-(* repaired: the same history writes three heads; the plain request and the CONNECT carry the credential to the proxy,
-   the tunnelled request does not carry it *)
+(* repaired: history0 writes three heads; the plain request and the CONNECT carry the credential to the proxy, the
+   tunnelled request does not.  history1 (tunnel accepted while the option was unset, option set afterwards): the CONNECT
+   that mitmproxy then sends to the proxy carries the credential, the request inside the client's tunnel does not. *)
 Theorem nonvacuous :
-  let wr := snd (wrun (cfg0 true) ws_init history0) in
-  (cfg0 true).(c_auth) = Some cred0 /\ Forall (wevent_clean cred0) history0
-  /\ map (fun cw => (w_kind (snd cw), w_tunnelled (snd cw), carriesb cred0 (w_fields (snd cw)))) wr
-     = [(WRequest, false, true); (WConnect, false, true); (WRequest, true, false)]
+  let obs := fun cfg h => map (fun cw => (w_kind (snd cw), w_tunnelled (snd cw), carriesb cred0 (w_fields (snd cw))))
+                              (snd (wrun cfg ws_init h)) in
+  (fst (wrun (cfg0 true) ws_init history0)).(ws_auth) = Some cred0
+  /\ Forall (wevent_clean cred0) history0 /\ Forall (wevent_clean cred0) history1
+  /\ obs (cfg0 true) history0 = [(WRequest, false, true); (WConnect, false, true); (WRequest, true, false)]
+  /\ obs (cfg0 true) history1 = [(WConnect, false, true); (WRequest, true, false)]
   /\ wsafe (cfg0 false) ws_init history0 = false.
 Proof.
-  cbn zeta. split; [reflexivity|]. split; [exact history0_clean|]. split; vm_compute; reflexivity.
+  cbn zeta. split; [vm_compute; reflexivity|]. split; [exact history0_clean|]. split; [exact history1_clean|].
+  repeat split; vm_compute; reflexivity.
+Qed.
+
+(* whatever the option was when the CONNECT was accepted: nothing written into a CONNECT tunnel carries a credential *)
+Theorem tunnel_never : forall cfg cred es,
+  cfg.(c_fixed) = true -> Forall (wevent_clean cred) es ->
+  forall c w, In (c, w) (snd (wrun cfg ws_init es)) -> w.(w_via) = true -> w.(w_tunnelled) = true ->
+  ~ carries cred w.(w_fields).
+Proof.
+  intros cfg cred es Hf Hcl c w Hin Hv Ht Hcar.
+  assert (Hg := good_not_tunnelled w (sound_fixed cfg cred es Hf Hcl c w Hin Hcar)).
+  rewrite Hv, Ht in Hg. discriminate.
 Qed.
 
 (* ------------------------------------------------------------------ the credential itself *)
